@@ -377,4 +377,59 @@ def check(ctx: Ctx) -> list[RuleResult]:
                 else:
                     r6.ok({"argument": arg.id, "read": "after the last suspension point before the call"})
     out.append(r6)
+
+    # ---- R7 ---------------------------------------------------------------------------
+    # "lost requests or replies only delay this: the missing part is filled in at a later polling round" - so a request that is due
+    # is sent. The polling loop may pass over a task for the two reasons the code has today (it is not due yet; its code/context was
+    # deprecated as unsupported) and the sender may not decline to transmit: a new reason to skip (the entity 'looks dead', the
+    # request 'was answered' - judged by its echo) turns a lost packet into a permanent gap
+    r7 = RuleResult("R7", "a due discovery request is sent", "in discover() every skip before the send is a not-due or a deprecated-code test; in send_disc_cmd the transmission precedes every return", min_instances=3)
+    loops7 = [n for n in own_nodes(disc.node) if isinstance(n, (ast.For, ast.AsyncFor)) and "discovery_cmds" in norm(n.iter)]
+    if len(loops7) != 1:
+        raise AnalysisError(f"discover(): the loop over the discovery table was not found uniquely ({len(loops7)})")
+    lp7 = loops7[0]
+    send_stmt = next((st for st in lp7.body if any(isinstance(c, ast.Call) and norm(c.func) == "send_disc_cmd" for c in ast.walk(st))), None)
+    if send_stmt is None:
+        raise AnalysisError("discover(): the send inside the polling loop was not found")
+    from .common import expand as _exp7
+
+    def _accepted(t: ast.expr) -> str | None:
+        txt = norm(_exp7(disc.node, t, pure_only=False))
+        if "_is_not_deprecated_cmd" in txt:
+            return "code/context deprecated"
+        if "_SZ_NEXT_DUE" in txt and any(isinstance(c, ast.Compare) for c in ast.walk(t)) and ("dt_now" in txt or "dt.now()" in txt):
+            return "not due yet"
+        return None
+
+    for st in lp7.body[: lp7.body.index(send_stmt)]:
+        for x in ast.walk(st):
+            if isinstance(x, (ast.Continue, ast.Break, ast.Return)):
+                r7.instances += 1
+                r7.nontrivial += 1
+                guards = []
+                q = getattr(x, "parent", None)
+                c7 = x
+                while q is not None and q is not lp7:
+                    if isinstance(q, ast.If):
+                        guards.append(q.test)
+                    c7, q = q, getattr(q, "parent", None)
+                why = next((w for w in (_accepted(t) for t in guards) if w), None)
+                if why:
+                    r7.ok({"skip": norm(guards[0])[:60], "reason": why})
+                else:
+                    r7.fail(f"{disc.short}:due-request-skipped:{norm(guards[0])[:40] if guards else 'unconditional'}", disc.loc(x), f"the polling loop passes over a task under `{norm(guards[0])[:70] if guards else 'no test'}` - neither 'not due yet' nor 'code deprecated': a request whose reply was lost (its echo still counts as 'last packet') is never sent again, so that part of the configuration is never learnt")
+    # the sender transmits before it can return
+    cfg7 = ctx.plain_cfg(sdc)
+    tx7 = [x for x in cfg7.nodes if x.ast is not None and x.kind == "stmt" and any(isinstance(c, ast.Call) and isinstance(c.func, ast.Attribute) and c.func.attr == "async_send_cmd" for c in ast.walk(x.ast))]
+    if not tx7:
+        raise AnalysisError("send_disc_cmd: the transmission was not found")
+    dom7 = cfg7.dominators()
+    for rn in [x for x in cfg7.nodes if x.kind == "stmt" and isinstance(x.ast, ast.Return)]:
+        r7.instances += 1
+        r7.nontrivial += 1
+        if any(t.id in dom7[rn.id] for t in tx7):
+            r7.ok({"return": f"send_disc_cmd: {norm(rn.ast)[:40]}", "after_the_transmission": True})
+        else:
+            r7.fail(f"{sdc.short}:return-without-sending", sdc.loc(rn.ast), f"`{norm(rn.ast)[:50]}` leaves send_disc_cmd before anything was transmitted: a gate on a failure counter that only a successful send resets can never open again, so after a long enough outage the entity is never polled again")
+    out.append(r7)
     return out
